@@ -397,6 +397,59 @@ pub fn run(ctx: &Ctx, _args: &Args) -> i32 {
                 }
             }
         }
+        // (1c) a chain without HTML stage (text filters only) on a response that is declared compressed but is not
+        // (mislabelled plain body): the decode stage fails internally, the body passes through byte for byte
+        {
+            let text_only: Vec<Vec<Value>> = vec![
+                vec![text_filter("append_text", &sentinel(1, false))],
+                vec![text_filter("prepend_text", &sentinel(1, false)), text_filter("append_text", &sentinel(2, false))],
+            ];
+            for (di, doc) in docs.iter().enumerate() {
+                if doc.is_empty() || !doc.is_ascii() {
+                    continue;
+                }
+                for enc in ["gzip", "deflate", "br"] {
+                    for (ti, filters) in text_only.iter().enumerate() {
+                        index += 1;
+                        if index % jobs != shard || (di + ti) % 4 != 0 {
+                            continue;
+                        }
+                        // (brotli accepts almost any prefix as the start of a stream: only gzip / zlib reject a plain
+                        // body at once, which is what makes the outcome independent of the chunking)
+                        if enc == "br" {
+                            continue;
+                        }
+                        let fc = FilterCase {
+                            filters: filters.clone(),
+                            headers: vec![("Content-Type".to_string(), "text/html".to_string()), ("Content-Encoding".to_string(), enc.to_string())],
+                        };
+                        let hash = mix(fnv(doc), fnv(serde_json::to_string(&fc).unwrap().as_bytes()));
+                        for (cuts, kind) in partitions_for(doc.len().min(64), &mut rng, false).into_iter().take(5) {
+                            report.eval();
+                            let run = run_chunks(&fc, &split_at(doc, &cuts));
+                            if run.error_at.is_none() {
+                                report.count("mislabelled_bodies_the_decoder_did_not_reject");
+                                continue;
+                            }
+                            let chunks = split_at(doc, &cuts);
+                            let before_error: usize = chunks.iter().take(run.error_at.unwrap_or(0)).map(|c| c.len()).sum();
+                            let header_len = if enc == "gzip" { 10 } else { 2 };
+                            if run.out != *doc && before_error > 0 && before_error < header_len && run.out == doc[before_error..] {
+                                // known class C04-F4D: header bytes consumed by the decoder in earlier calls are dropped
+                                let case = serde_json::to_value(Case { body_hex: hex(doc), fc: fc.clone(), cuts: cuts.clone() }).unwrap();
+                                report.finding(ctx, "C04-F4D", format!("{before_error} header bytes consumed before the decoder rejected the body are missing"), case);
+                            } else if run.out != *doc {
+                                let case = serde_json::to_value(Case { body_hex: hex(doc), fc: fc.clone(), cuts: cuts.clone() }).unwrap();
+                                report.violation("not-conserved", format!("{kind} cuts {cuts:?}: the chain failed internally (plain body declared {enc}) but the body did not pass through byte for byte: {} bytes out of {}", run.out.len(), doc.len()), case);
+                            } else {
+                                report.count("mislabelled_bodies_passed_through_by_a_text_only_chain");
+                                report.nontrivial(mix(hash, fnv(format!("{cuts:?}").as_bytes())));
+                            }
+                        }
+                    }
+                }
+            }
+        }
         // (2) fault injection by input: an invalid byte at every offset of every corpus document
         for doc in &docs {
             for (fi, fc) in insert_only.iter().enumerate() {
